@@ -6,6 +6,7 @@ import (
 	"os"
 	"os/exec"
 	"path/filepath"
+	"sort"
 	"strings"
 	"sync"
 	"time"
@@ -109,6 +110,7 @@ type solveOpts struct {
 	retryMs   int
 	portfolio bool
 	dumpDir   string
+	noVacuity bool
 }
 
 // solve discharges the obligations of one function.
@@ -186,6 +188,37 @@ func (e *Enc) solve(opt solveOpts) {
 				break
 			}
 			e.runBatch(cfg, again, off, opt.retryMs)
+		}
+	}
+	// vacuity: an obligation whose program point is unreachable under the assumptions proves nothing.
+	// One reachability query per distinct program point that carries a discharged obligation.
+	if !opt.noVacuity {
+		byReach := map[string][]*Oblig{}
+		var order []string
+		for _, o := range pend {
+			if o.Family == "VAC" || o.Verdict != "unsat" || o.reach == "true" || o.cond == "false" {
+				continue // (an obligation "false" is itself the claim that its point is unreachable)
+			}
+			if _, ok := byReach[o.reach]; !ok {
+				order = append(order, o.reach)
+			}
+			byReach[o.reach] = append(byReach[o.reach], o)
+		}
+		var probes []*Oblig
+		for _, r := range order {
+			first := byReach[r][0]
+			probes = append(probes, &Oblig{Fn: first.Fn, Family: "VAC", Kind: "point", Name: first.Name + " [reachable?]", cond: "false", reach: r, at: first.at})
+		}
+		// probes must be in generation order for the interleaved script
+		sort.SliceStable(probes, func(i, j int) bool { return probes[i].at < probes[j].at })
+		e.runBatch(solvers[0], probes, off, opt.quickMs)
+		for _, p := range probes {
+			if p.Verdict == "unsat" {
+				for _, o := range byReach[p.reach] {
+					o.Verdict = "vacuous"
+					o.Output = "program point unreachable under the assumptions"
+				}
+			}
 		}
 	}
 	if opt.dumpDir != "" {
